@@ -340,12 +340,18 @@ func otLayoutDeleteGlyphsInplace(buffer *Buffer, filter func(*GlyphInfo) bool) {
 
 		if j != i {
 			info[j] = info[i]
-			pos[j] = pos[i]
+			if i < len(pos) {
+				// before positions exist, glyph insertion may
+				// have made Info longer than Pos
+				pos[j] = pos[i]
+			}
 		}
 		j++
 	}
 	buffer.Info = buffer.Info[:j]
-	buffer.Pos = buffer.Pos[:j]
+	if j <= len(buffer.Pos) {
+		buffer.Pos = buffer.Pos[:j]
+	}
 }
 
 // Called before positioning lookups are performed, to ensure that glyph
